@@ -112,12 +112,12 @@ static void alphabet_dec(int alpha){
    int lbrr,celt,hyb;
    corpus_build(&CO,0);
    NOPS=0; g_nslot=0;
-   add_pkt("silk bw0 200ms/10 ch1",3,"SILK NB 20ms mono");
+   add_pkt("silk bw0 200ms/10 ch1 r0",3,"SILK NB 20ms mono");
    lbrr=add_pkt("silk wb 20ms fec ch1",4,"SILK WB 20ms mono +LBRR");
-   hyb=add_pkt("hybrid bw1 200ms/10 ch2",3,"hybrid FB 20ms stereo");
-   celt=add_pkt("celt bw3 200ms/10 ch2",3,"CELT FB 20ms stereo");
-   add_pkt("celt bw3 25ms/10 ch1",3,"CELT FB 2.5ms mono");
-   add_pkt("silk bw1 600ms/10 ch2",3,"SILK MB 60ms stereo");
+   hyb=add_pkt("hybrid bw1 200ms/10 ch2 r0",3,"hybrid FB 20ms stereo");
+   celt=add_pkt("celt bw3 200ms/10 ch2 r0",3,"CELT FB 20ms stereo");
+   add_pkt("celt bw3 25ms/10 ch1 r0",3,"CELT FB 2.5ms mono");
+   add_pkt("silk bw1 600ms/10 ch2 r0",3,"SILK MB 60ms stereo");
    add_pkt("transition silk->celt ch1",4,"transition SILK->CELT #4 mono");
    if (alpha>=0) add_pkt("silk dtx silence ch1",20,"SILK DTX packet");
    if (alpha>=1){
@@ -125,7 +125,7 @@ static void alphabet_dec(int alpha){
       add_pkt("transition celt->silk ch2",4,"transition CELT->SILK #4 stereo");
       add_pkt("hybrid 60ms (code3)",1,"hybrid FB 60ms code3 mono");
       add_pkt("silk stereo->mono",4,"SILK stereo->mono #4");
-      add_pkt("celt bw1 50ms/10 ch2",3,"CELT WB 5ms stereo");
+      add_pkt("celt bw1 50ms/10 ch2 r0",3,"CELT WB 5ms stereo");
       add_pkt("silk nb 60ms fec ch2",3,"SILK NB 60ms stereo +LBRR");
    }
    add_op("decode_float(hybrid FB 20ms stereo)",OP_IO,hyb,0,1,0);
